@@ -19,6 +19,7 @@ TInit == Init /\ run = 1 /\ pos = [th \in Threads |-> 0]
 
 Match(e) ==
   CASE e.op = "top"    -> Top(Tr[run].progs[e.t])
+    [] e.op = "ensure" -> Ensure
     [] e.op = "begin"  -> Begin(e.t)
     [] e.op = "step"   -> Step(e.t) /\ hist'[1].i = e.i /\ hist'[1].val = e.val /\ hist'[1].k = e.k /\ hist'[1].a = e.a
     [] e.op = "end"    -> EndExec(e.t) /\ hist'[1].out = e.out
@@ -38,10 +39,11 @@ NextRun ==
   /\ prog' = [t \in Tx |-> NoProg] /\ real' = [a \in Acc |-> 0] /\ disp' = 0 /\ dpc' = "top"
   /\ las' = [t \in Tx |-> [a \in Acc |-> NoLas]]
   /\ wlock' = [t \in Tx |-> "N"] /\ wsnap' = [t \in Tx |-> [a \in Acc |-> 0]]
+  /\ wbase' = [t \in Tx |-> [a \in Acc |-> -1]]
   /\ sysdep' = [t \in Tx |-> 0] /\ ph' = [t \in Tx |-> "none"] /\ pc' = [t \in Tx |-> 0]
   /\ att' = [t \in Tx |-> 0] /\ saved' = [t \in Tx |-> [a \in Acc |-> 0]]
   /\ lastAL' = [a \in Acc |-> 0] /\ lastWL' = 0 /\ roCache' = [a \in Acc |-> -1]
-  /\ latch' = 0 /\ rcpt' = [t \in Tx |-> FALSE] /\ result' = "run" /\ hist' = <<>>
+  /\ latch' = 0 /\ rcpt' = [t \in Tx |-> FALSE] /\ result' = "run" /\ cancelled' = FALSE /\ hist' = <<>>
 TNext == Consume \/ Silent \/ NextRun
 TSpec == TInit /\ [][TNext]_tvars
 
